@@ -153,10 +153,10 @@ void run_case(Choices& c, Report& r)
     for (unsigned k = 0; k < nsteps; ++k)
     {
       Step s{};
-      switch (c.weighted({6, 2, 1, 2, g_prop == "C17" ? 8u : 1u}))
+      switch (c.weighted({6, 2, 1, (g_prop == "C06" || g_prop == "C03") ? 6u : 2u, g_prop == "C17" ? 8u : 1u}))
       {
       case 4: s.kind = 4; s.count = 1 + c.pick(3); total += s.count; break; // logger cycle: create, log a few, remove
-      case 3: s.kind = 3; s.count = 1 + c.pick(8); total += s.count; break; // churn: short-lived threads logging for the first time
+      case 3: s.kind = 3; s.count = 2 + c.pick(14); total += s.count; break; // churn: short-lived threads logging for the first time
       case 0:
         s.kind = 0;
         s.count = 1u << (4 + c.pick(13)); // 16 .. 65536
@@ -178,7 +178,7 @@ void run_case(Choices& c, Report& r)
   // registry-lock jitter: a helper thread that periodically holds the thread-context registry lock for a short while through
   // the public for_each_thread_context() (models contention / preemption of a lock holder; widens every window around it)
   unsigned hold_ns = 0;
-  switch (c.pick(3)) { case 1: hold_ns = 3000; break; case 2: hold_ns = 30000; break; default: break; }
+  switch (c.pick(4)) { case 1: hold_ns = 3000; break; case 2: hold_ns = 30000; break; case 3: hold_ns = 300000; break; default: break; }
   r.line("lock_jitter_ns=" + std::to_string(hold_ns));
   if (hold_ns) r.label("registry_lock_jitter");
   std::mutex churn_m;
